@@ -272,6 +272,12 @@ class Z3Session:
                 r2, model2, _ = self._solve_bv(tl, get)
                 if r2 != 'unknown':
                     return r2, model2, None
+        if any('fp.' in ln or 'to_fp' in ln for ln in lines):
+            # floating-point queries: a one-shot z3 process bit-blasts them; the persistent process (even after (reset)) stays on the lazy
+            # floating-point theory and is an order of magnitude slower on them (measured: 30 s vs > 150 s and unknown)
+            r, model, vals = self._solve_file(lines, get, exprs)
+            if r != 'unknown':
+                return r, model, vals
         r, model, vals = self.solve1(lines, get, exprs)
         if r != 'unknown' or not portfolio or bv_first:
             return r, model, vals
@@ -282,6 +288,55 @@ class Z3Session:
         if r2 == 'unknown':
             return r, model, vals
         return r2, model2, None
+
+    def _solve_file(self, lines, get=None, exprs=None):
+        self.queries += 1
+        self.file_queries = getattr(self, 'file_queries', 0) + 1
+        f = os.path.join(scratch(), 'q_%d_%d.smt2' % (os.getpid(), self.queries))
+        text = '\n'.join(lines) + '\n(check-sat)\n'
+        if get:
+            text += '(echo "@@model")\n(get-value (%s))\n' % ' '.join(get)
+        if exprs:
+            text += '(echo "@@exprs")\n(get-value (%s))\n' % ' '.join(exprs)
+        with open(f, 'w') as fh:
+            fh.write(text)
+        t0 = time.time()
+        secs = max(1, int(self.timeout_ms / 1000))
+        try:
+            p = subprocess.run([self.binary, '-T:%d' % secs, f], stdout=subprocess.PIPE, stderr=subprocess.STDOUT, timeout=secs + 30, text=True, preexec_fn=_die_with_parent)
+            out = p.stdout
+        except subprocess.TimeoutExpired:
+            out = 'unknown'
+        finally:
+            try:
+                os.unlink(f)
+            except OSError:
+                pass
+        self.solver_s += time.time() - t0
+        first = out.strip().split('\n')[0].strip() if out.strip() else 'unknown'
+        if first not in ('sat', 'unsat'):
+            self.results['unknown'] += 1
+            return 'unknown', {}, None
+        if first == 'unsat':
+            # an (error before the verdict would have changed `first`; errors after it come from get-value on an unsat state
+            self.results['unsat'] += 1
+            return 'unsat', {}, None
+        model, vals = {}, None
+        try:
+            if get and '@@model' in out:
+                seg = out.split('@@model', 1)[1]
+                seg = seg.split('@@exprs', 1)[0]
+                model = parse_values(seg.strip().strip('"').strip())
+            if exprs and '@@exprs' in out:
+                vals = out.split('@@exprs', 1)[1].strip().strip('"').strip()
+        except Exception:  # noqa
+            self.results['unknown'] += 1
+            return 'unknown', {}, None
+        if '(error' in out:
+            self.results['unknown'] += 1
+            return 'unknown', {}, None
+        self.results['sat'] += 1
+        return 'sat', model, vals
 
     def _solve_bv(self, tl, get):
         from . import int2bv
